@@ -1,12 +1,17 @@
 import XrsVerif.Proofs.AStarEuclid
 import XrsVerif.Proofs.AStarCoord
 import XrsVerif.Proofs.AStarQ2
+import XrsVerif.Proofs.AStarGen
 import Mathlib.Analysis.Real.Sqrt
 /-
   C14 -- A* returns a valid, shortest path between the cells the caller named.
 
   All statements are about `Model/AStar.lean`, the hand model of `xrspatial/pathfinding.py`
-  (after repairs D6 and D7), tied to the code by the correspondence run (harness/corr_C14.py).
+  (after repairs D6 and D7), tied to the code (a) by the correspondence run (harness/corr_C14.py) and
+  (b) piece by piece by the theorems of the last section, which mention the definitions that
+  `harness/facts_astar.py` regenerates from the source on every run (`Gen/AStarFacts.lean`): the
+  heuristic and step-length kernels, the neighbour tables, the body of the relaxation loop, the
+  min-cost selection, the barrier test, the coordinate -> pixel expressions, the snap scan.
 
   Vocabulary (Proofs/AStarInv.lean): `Free e c` = inside the raster and crossable; `Adj e u v` =
   `v` is `u` plus one of the 4 / 8 neighbour offsets; `Route e c l` = a route of crossable cells
@@ -288,5 +293,172 @@ example (d : Cell → Cell → K) :
     ⟨by simp [envOf, inside], rfl⟩
 
 end exact
+
+
+/-! ### the generated pieces of pathfinding.py (`Gen/AStarFacts.lean`, regenerated from the source on every run)
+
+  `K` is any linearly ordered field with an interpretation of the transcendental functions (`Trig K`);
+  of `np.sqrt` only `SqrtOk K` is assumed: on non-negative arguments it returns the non-negative
+  square root.  `distG a b` / `heurG a b` are the generated kernels `_distance` / `_heuristic`
+  evaluated at `(a.x, a.y, b.x, b.y)` over `NV K`; `stepK`, `heurK` their values as field elements. -/
+
+section generated
+open XrsVerif.Gen.AStarFacts
+variable {K : Type} [Field K] [LinearOrder K] [IsStrictOrderedRing K] [Trig K]
+
+/-- the generated `_distance` and `_heuristic` both compute `sqrt((x1 - x2)² + (y1 - y2)²)` on pixel
+    indices, for every interpretation of `sqrt` -/
+theorem distance_heuristic_kernels (a b : Cell) :
+    (distG a b : NV K) = some (Trig.sqrt (sqK a b)) ∧ (heurG a b : NV K) = some (Trig.sqrt (sqK a b)) :=
+  ⟨distG_val a b, heurG_val a b⟩
+
+/-- **the generated heuristic is consistent** with respect to the generated step length: it never
+    drops by more than the step taken -- for every pair of cells, in particular along every
+    generated neighbour offset -- and it is `0` at the goal; hence admissible.  (A heuristic scaled
+    by `1 + 1e-3`, seeded change C14-4, makes this theorem fail.) -/
+theorem heuristic_consistent (hs : SqrtOk K) (u goal : Cell) :
+    (∀ conn : Nat, ∀ off ∈ neighborsFor (conn : Int),
+      (heurK u goal : K) ≤ stepK u (u.1 + off.1, u.2 + off.2) + heurK (u.1 + off.1, u.2 + off.2) goal) ∧
+    (∀ v, (heurK u goal : K) ≤ stepK u v + heurK v goal) ∧ (heurK goal goal : K) = 0 :=
+  ⟨fun _ off _ => heurK_consistent hs u _ goal, fun v => heurK_consistent hs u v goal, heurK_goal hs goal⟩
+
+/-- `_neighborhood_structure`, traced through `a_star_search` into the `zip` loop: the offsets the
+    loop adds to the popped cell are the model's tables, in the same order, for every `connectivity`;
+    the public function rejects every connectivity other than 4 and 8 -/
+theorem neighbour_tables_generated (conn : Nat) :
+    neighborsFor (conn : Int) = nbrsOf conn ∧
+    ((validate.cellFailed (argEnv validate [some (conn : K)]) (fun _ _ _ => none) (fun _ => [])).isSome ↔
+      (conn ≠ 4 ∧ conn ≠ 8)) :=
+  ⟨neighbors_generated conn, validate_generated conn⟩
+
+/-- the environment of the search built from generated pieces only: step length `_distance`,
+    heuristic `_heuristic`, offsets `_neighborhood_structure` -/
+def envGen (h w : Nat) (cross : Cell → Bool) (conn : Nat) (start goal : Cell) : Env K :=
+  { ops := fieldOps stepK heurK, h := h, w := w, cross := cross, nbrs := neighborsFor (conn : Int),
+    start := start, goal := goal }
+
+/-- **the main theorem with the generated heuristic, step length and neighbour tables**: the search
+    never leaves the modelled behaviour, a returned path is a valid chain whose goal value is the
+    minimum over all routes, "every cell NaN" means no route.  Consistency of the heuristic enters
+    through `heuristic_consistent`, the step bound through the generated tables. -/
+theorem astar_generated (hs : SqrtOk K) (h w : Nat) (cross : Cell → Bool) (conn : Nat) (start goal : Cell)
+    (hstart : inside h w start = true) (hgoal : inside h w goal = true) :
+    match search (envGen (K := K) h w cross conn start goal) with
+    | .path chain g => ValidPath (envGen (K := K) h w cross conn start goal) chain g ∧
+        ∀ l, Route (envGen (K := K) h w cross conn start goal) goal l → g goal ≤ l
+    | .noPath => ∀ l, ¬ Route (envGen (K := K) h w cross conn start goal) goal l
+    | .anomaly _ => False := by
+  have hd := stepK_euclid hs
+  have hb := hd.sqrt2_bounds
+  refine search_exact (e := envGen h w cross conn start goal) (wt := stepK) (hh := heurK) rfl
+    (fun u v _ _ _ => (heuristic_consistent hs u goal).2.1 v) hstart (s := IsEuclid.sqrt2 stepK)
+    (by linarith) hb.2 ?_ ?_
+  · rintro u v ⟨off, hoff, rfl⟩
+    have hoff' : off ∈ nbrsOf conn := by rw [← neighbors_generated conn]; exact hoff
+    rcases hd.step_len u off (nbrsOf_sub_nbrs8 hoff') with h1 | h1
+    · rw [h1.1]; linarith
+    · rw [h1.1]
+  · intro v hv
+    exact (heurK_euclid hs).le_h_add_w hv.1 hgoal
+
+/-- **the body of the neighbour loop is `relax`**: executing the generated statement on the variables
+    of the popped cell `u`, the offset and the state either ends in `continue` -- then the model
+    leaves the state unchanged -- or stores `d_from_start` (`g`), `cost` (`f`), `is_open = True` and the parent
+    `(py, px)` for the neighbour, and these are exactly the model's new state (closed cells are
+    skipped; an open cell is overwritten unless the new distance is strictly greater; out-of-raster
+    and barrier / NaN cells are skipped) -/
+theorem relaxation_generated (e : Env K) (hx : e.ops = fieldOps stepK heurK)
+    (dataV : Cell → NV K) (bars : List (NV K)) (hc : e.cross = crossG dataV bars) (u off : Cell) (st : St K) :
+    let s' := relaxBody.exec (fun _ _ _ => none) (vecOf bars) ⟨relaxEnv e dataV u off st, none, false, none⟩
+    s'.failed = none ∧
+    (s'.halted = true → relax e u st off = st) ∧
+    (s'.halted = false →
+      ∃ g f, s'.env "g@v" = some g ∧ s'.env "f@v" = some f ∧ s'.env "open@v" = some 1 ∧
+        s'.env "par_y@v" = some (u.1 : K) ∧ s'.env "par_x@v" = some (u.2 : K) ∧
+        relax e u st off = relaxed st u (u.1 + off.1, u.2 + off.2) g f) :=
+  relax_generated e stepK heurK hx stepK_eq heurK_eq dataV bars hc u off st
+
+/-- between the pop and the neighbour loop the popped cell leaves the open list and enters the closed
+    list: the generated statements are `close` -/
+theorem pop_bookkeeping_generated (st : St K) (u : Cell) :
+    let s' := popBody.exec (fun _ _ _ => none) (fun _ => [])
+      ⟨XrsVerif.envOf [("open@u", b2n (st.isOpen u)), ("closed@u", b2n (st.isClosed u))], none, false, none⟩
+    s'.env "open@u" = (b2n ((close st u).isOpen u) : NV K) ∧ s'.env "closed@u" = b2n ((close st u).isClosed u) ∧
+    s'.failed = none ∧ s'.halted = false :=
+  pop_generated st u
+
+/-- **`_min_cost_pixel_id` is `minCostOpen`**: the statements before the scan set `(NONE, NONE)` and the
+    sentinel `(height + width)²`, the loops run row-major, and one iteration of the scan is `minStep`
+    (an open cell with a strictly smaller cost replaces the running minimum) -/
+theorem min_cost_generated (e : Env K) (hx : e.ops = fieldOps stepK heurK) (st : St K)
+    (acc : Option Cell × K) (c : Cell) :
+    (let s0 := minCostInit.exec (fun _ _ _ => none) (fun _ => [])
+        ⟨XrsVerif.envOf [("rows", some (e.h : K)), ("cols", some (e.w : K))], none, false, none⟩
+     readAcc s0.env = accVars ((none : Option Cell), e.ops.big e.h e.w) ∧ s0.failed = none ∧ minCostRowMajor = true) ∧
+    (let s' := minCostBody.exec (fun _ _ _ => none) (fun _ => []) ⟨minEnv st acc c, none, false, none⟩
+     readAcc s'.env = accVars (minStep e st acc c) ∧ s'.failed = none ∧ s'.halted = false) :=
+  ⟨minInit_generated e stepK heurK hx, minStep_generated e stepK heurK hx st acc c⟩
+
+/-- **the whole of `_min_cost_pixel_id`**: the generated loop body run over the cells in row-major order from
+    the generated initialisation leaves in `(best_y, best_x)` the cell `minCostOpen` returns (`(-1, -1)` for
+    `none`) -/
+theorem min_cost_scan_generated (e : Env K) (hx : e.ops = fieldOps stepK heurK) (st : St K) :
+    ((cells e.h e.w).foldl (genMinStep st) (accVars ((none : Option Cell), e.ops.big e.h e.w))).1 =
+      (match minCostOpen e st with | none => (some (-1) : NV K) | some c => some (c.1 : K)) ∧
+    ((cells e.h e.w).foldl (genMinStep st) (accVars ((none : Option Cell), e.ops.big e.h e.w))).2.1 =
+      (match minCostOpen e st with | none => (some (-1) : NV K) | some c => some (c.2 : K)) := by
+  rw [minScan_generated e stepK heurK hx st]
+  unfold minCostOpen accVars
+  constructor <;> split <;> simp_all
+
+/-- **`_is_not_crossable` is the model's barrier test** (NaN, or equal as a real number to a listed
+    value; no conversion of the list), and `_is_inside` is `inside` -/
+theorem barrier_and_inside_tests_generated (v : Val) (bars : List Val) (hv : v.finiteOrNaN)
+    (hb : ∀ b ∈ bars, b.finiteOrNaN) (h w : Nat) (c : Cell) :
+    notCrossable.eval ⟨XrsVerif.envOf [("value", (valNV v : NV K))], fun _ _ _ => none, vecOf (bars.map valNV)⟩
+      = notCrossableV v bars ∧
+    isInside.cell (argEnv isInside [some (c.1 : K), some (c.2 : K), some (h : K), some (w : K)])
+      (fun _ _ _ => none) (fun _ => []) = some (if inside h w c then 1 else 0) :=
+  ⟨notCrossable_generated v bars hv hb, isInside_generated h w c⟩
+
+/-- `a_star_search` hands the caller's barrier list to the kernels as `np.array(barriers)`: no `astype`, no
+    `dtype=`, no rounding (seeded change C14-3 adds `.astype(surface.dtype)`) -/
+theorem barrier_list_not_converted : barrierCasts = [] := by decide
+
+/-- **`_get_pixel_id` is `pixelId`**: the generated row / column expressions under `int(...)` are
+    `|p - c0| / cellsize + 1/2` with the axis' own first coordinate and cell size; the value is
+    non-negative, so `int` (truncation) is the floor -/
+theorem pixel_rule_generated [Trig ℚ] (c0 cs p : ℚ) (hcs : 0 < cs) :
+    (∃ q : ℚ, pixelRow.eval ⟨XrsVerif.envOf [("point0", some p), ("coords_y0", some c0), ("cellsize_y", some cs)],
+        fun _ _ _ => none, fun _ => []⟩ = some q ∧ 0 ≤ q ∧ pixelId c0 cs p = ⌊q⌋) ∧
+    (∃ q : ℚ, pixelCol.eval ⟨XrsVerif.envOf [("point1", some p), ("coords_x0", some c0), ("cellsize_x", some cs)],
+        fun _ _ _ => none, fun _ => []⟩ = some q ∧ 0 ≤ q ∧ pixelId c0 cs p = ⌊q⌋) ∧
+    pixelCasts = ["int", "int"] :=
+  pixel_generated c0 cs p hcs
+
+/-- **`_find_nearest_pixel` is `findNearest`**: the queried cell is kept exactly when it is crossable;
+    the running minimum starts at infinity and the scan is row-major; one iteration of the scan is
+    `nearStep` (the code compares Euclidean distances, the model their squares) -/
+theorem snap_rule_generated (hs : SqrtOk K) (dataV : Cell → NV K) (bars : List (NV K)) (p c : Cell)
+    (acc : Option (Cell × Int)) (md : K)
+    (hacc : match acc with
+      | none => Trig.sqrt (sqK c p) < md
+      | some (_, m) => 0 ≤ m ∧ md = Trig.sqrt ((m : Int) : K)) :
+    snapKeep.eval ⟨XrsVerif.envOf [("data@p", dataV p)], fun _ _ _ => none, vecOf bars⟩ = crossG dataV bars p ∧
+    (let s' := snapBody.exec (fun _ _ _ => none) (vecOf bars) ⟨snapEnv dataV p c acc md, none, false, none⟩
+     let acc' := nearStep (crossG dataV bars) p acc c
+     s'.failed = none ∧ (s'.env "near_y", s'.env "near_x") = nearVars acc' ∧
+     s'.env "min_distance" = some (if acc' = acc then md else Trig.sqrt (((sqDist c p : Int)) : K)) ∧
+     snapInitInf = true ∧ snapRowMajor = true) :=
+  ⟨snapKeep_generated dataV bars p, snapStep_generated hs dataV bars p c acc md hacc⟩
+
+end generated
+
+/-- non-vacuity: over the reals `np.sqrt` is `Real.sqrt` (the other functions do not occur in the
+    generated A* kernels), and `SqrtOk` holds -/
+@[instance_reducible] noncomputable def realSqrt : Trig ℝ := ⟨Real.sqrt, id, fun a _ => a, id, id, id, id⟩
+
+example : @SqrtOk ℝ _ _ _ realSqrt :=
+  @SqrtOk.mk ℝ _ _ _ realSqrt (fun x _ => Real.sqrt_nonneg x) (fun x hx => Real.mul_self_sqrt hx)
 
 end XrsVerif.C14
